@@ -628,10 +628,11 @@ class MetadataManager:
         among same-version files (possible after historical races) prefers the
         most recently modified.
         """
-        try:
-            all_files = self.storage.list_files(self.metadata_path)
-        except Exception:
-            return None
+        # A failed listing must propagate: "cannot list" is not "no metadata
+        # files". Swallowing it into None made an existing table whose hint was
+        # lost look absent, and create_table() then re-initialised over it
+        # (a missing directory lists as [] on both backends, it does not raise).
+        all_files = self.storage.list_files(self.metadata_path)
 
         best: Optional[Tuple[int, str]] = None
         best_mtime = -1.0
